@@ -190,6 +190,9 @@ def check_functions(prog, funcs, funclabels, parse_nodes):
         ex = prog.nodes[f["exit"]]
         if not is_ret(ex) or f["exit"] not in r:
             return f"function at {f['entry']}: exit {f['exit']} is not a return it reaches"
+        if ex["nexts"]:
+            return (f"function at {f['entry']}: its exit {f['exit']} (a return) has successors {ex['nexts']}: the function "
+                    f"would run on into other code")
         for i in r:
             n = prog.nodes[i]
             if is_ret(n) and i != f["exit"]:
